@@ -709,6 +709,20 @@ fn main() {
                     s.push_str(" else { c = -1.0; }\n    return vec4<f32>(c);\n}\n");
                     s
                 }
+                "switchnest" => {
+                    // n switches nested in one another, each case clause with 8 selectors (naga lowers `case 1, 2, ..` to one case
+                    // per selector, all but the last empty and falling through)
+                    let mut s = String::from("@group(0) @binding(0) var<storage, read_write> out: array<u32>;\nfn touch(k: u32) { out[k] = k; }\n@compute @workgroup_size(1) fn main(@builtin(global_invocation_id) id: vec3<u32>) {\n    var k = id.x;\n");
+                    for d in 0..n {
+                        s.push_str(&format!("{}switch k {{ case 1u, 2u, 3u, 4u, 5u, 6u, 7u, 8u: {{\n", "    ".repeat(d + 1)));
+                    }
+                    s.push_str(&format!("{}touch(k);\n", "    ".repeat(n + 1)));
+                    for d in (0..n).rev() {
+                        s.push_str(&format!("{}}} default: {{ k += 1u; }} }}\n", "    ".repeat(d + 1)));
+                    }
+                    s.push_str("}\n");
+                    s
+                }
                 "overrideladder" => {
                     // override defaults derived from each other, each level mentioning the previous one twice; the last sizes a workgroup
                     let mut s = String::from("override size0: u32 = 4u;\n");
